@@ -7,6 +7,7 @@ from .. import positives as P
 
 PROP = "C14"
 EXPLANATION = (
+    "(DEPS: that no dependant of a panicking system runs in that dispatch rests on the placement of dependants behind what they depend on - the obligations of C02 are imported as C14.DEPS.*.) "
     "(NOSWALLOW also covers std::thread spawn / scope / join inside the run cone: a system run on a thread of its own ends its panic in the join handle; RELEASE also forbids re-making a guard-derived reference through a raw pointer or transmutation.) "
     "Propagation order and 'siblings finish first' are rayon's contract (trusted). Decided structurally: (NOSWALLOW) no catch_unwind, "
     "resume_unwind or panic-hook manipulation anywhere in the crate, so a panic leaves run_now, the group loop, the stage loop and "
@@ -34,6 +35,10 @@ def _run_rules(ctx, report):
         report.guard("C14.INTACT", R.intact_flow, ctx, report, "C14.INTACT", facts, config)
         report.guard("C14.LOCK", R.lock, ctx, report, "C14.LOCK", facts, config)
         report.guard("C14.ONCE", F.check_family, ctx, report, "C14.ONCE", facts, config, (F.RUN,), lambda i: i in ONCE_IDS)
+        # "no system that depends on the panicking one runs in that dispatch" holds because a dependant is placed in a later
+        # stage, or later in the same group, than what it depends on: the placement obligations of C02, imported
+        from . import c02
+        c02.rules(ctx, report, facts, config, pfx="C14.DEPS")
     P.check(ctx, report, "C14.NOSWALLOW", ["catch_unwind", "resume_unwind", "panic_hook", "thread_handoff"])
     P.check(ctx, report, "C14.RELEASE", ["forget_guard", "manually_drop_guard", "leak_guard", "launder_guard"])
     P.check(ctx, report, "C14.LOCK", ["write_lock"])
